@@ -1066,4 +1066,61 @@ example : ((exBack.expectedBack (fun p l j => (p, l, j)) 2).map (·.2)).Nodup :=
 /-- setExpr_spec / attrset_tables: a negated union of a range and an item (mask 1 written as `A1` in the harness) -/
 example : (altTable.getD 1 .empty).contains 0 = true ∧ (altTable.getD 1 .empty).contains 2 = false := by decide
 
+/-! ### the asynchronous system on `ex` (round three)
+
+forward twice; processes 0 and 1 send to each other and to 2, process 2 only receives (so on 0 and 1 the neighbour 2 sits
+behind the number of posted receives: the position a send-wait loop bounded by `numberOfRealRecvRequests` would miss) -/
+example : (ex.comm 0).boundVal true .realRecvs = 1 ∧ (ex.comm 0).boundVal true .neighbours = 2 ∧
+    (ex.comm 0).postedSends true = [1, 2] ∧ (ex.comm 0).waitedSends true = [1, 2] := by decide
+
+def exA : ASys (Nat × Nat × Nat) (Nat → Nat → Nat × Nat × Nat) :=
+  ex.asys (fun d l j => d l j) fnScatterCopy [true, true] (fun _ _ c => c)
+
+example : (ex.comm 0).postedSends true = [1, 2] ∧ (ex.comm 1).postedSends true = [0, 2] ∧ (ex.comm 2).postedSends true = [] ∧
+   (ex.comm 2).postedRecvs true = [0, 1] := by decide
+
+def exS1 : AState (Nat × Nat × Nat) (Nat → Nat → Nat × Nat × Nat) := AState.init exSt
+def exS2 := ({ σ := upd exS1.σ 0 (enterProc exA 0 (exS1.σ 0)), gh := exS1.gh } : AState _ _)
+def exS3 := ({ σ := upd exS2.σ 1 (enterProc exA 1 (exS2.σ 1)), gh := exS2.gh } : AState _ _)
+def exS4 := ({ σ := upd exS3.σ 2 (enterProc exA 2 (exS3.σ 2)), gh := exS3.gh } : AState _ _)
+
+example : (exS4.σ 1).outS = [] ++ (0, 0) :: [(2, 0)] := by decide
+
+def trans (s : AState (Nat × Nat × Nat) (Nat → Nat → Nat × Nat × Nat)) (p q k' : Nat) (pre post : List (Nat × Nat)) :
+    AState (Nat × Nat × Nat) (Nat → Nat → Nat × Nat × Nat) :=
+  { σ := let σ1 := upd s.σ p { s.σ p with outS := pre ++ post }
+         upd σ1 q (landProc exA q p (transferMsg exA p q k' (s.σ p)) (σ1 q)),
+    gh := s.gh }
+def exS5 := trans exS4 1 0 0 [] [(2, 0)]
+def exS6 := trans exS5 1 2 0 [] []
+def exS7 := trans exS6 0 1 0 [] [(2, 0)]
+def exS8 : AState (Nat × Nat × Nat) (Nat → Nat → Nat × Nat × Nat) :=
+  { σ := upd exS7.σ 1 (finishProc exA 1 [0] (exS7.σ 1)),
+    gh := fun k x => if k = (exS7.σ 1).k ∧ x = 1 then some ((exS7.σ 1).arrd, [0]) else exS7.gh k x }
+def exS9 := ({ σ := upd exS8.σ 1 (enterProc exA 1 (exS8.σ 1)), gh := exS8.gh } : AState _ _)
+
+theorem exS4_reach : AReach exA exSt exS4 :=
+  AReach.step (AReach.step (AReach.step AReach.init (AStep.enter _ 0 (by decide) rfl (by decide)))
+    (AStep.enter _ 1 (by decide) rfl (by decide))) (AStep.enter _ 2 (by decide) rfl (by decide))
+
+theorem exS9_reach : AReach exA exSt exS9 := by
+  have h5 : AReach exA exSt exS5 :=
+    AReach.step exS4_reach (AStep.transfer exS4 1 0 0 [] [(2, 0)] (by decide) (by decide) (by decide) (by decide) (by decide) (by decide))
+  have h6 : AReach exA exSt exS6 :=
+    AReach.step h5 (AStep.transfer exS5 1 2 0 [] [] (by decide) (by decide) (by decide) (by decide) (by decide) (by decide))
+  have h7 : AReach exA exSt exS7 :=
+    AReach.step h6 (AStep.transfer exS6 0 1 0 [] [(2, 0)] (by decide) (by decide) (by decide) (by decide) (by decide) (by decide))
+  have h8 : AReach exA exSt exS8 :=
+    AReach.step h7 (AStep.finish exS7 1 [0] (by decide) (by decide) (by decide) (by decide) (by decide))
+  exact AReach.step h8 (AStep.enter exS8 1 (by decide) (by decide) (by decide))
+
+-- process 1 is inside its second communication, 0 and 2 still inside the first; 0 waits for its send to 2 only
+example : (exS9.σ 1).k = 1 ∧ (exS9.σ 1).inC = true ∧ (exS9.σ 0).k = 0 ∧ (exS9.σ 0).pendR = [] ∧ (exS9.σ 0).outS = [(2, 0)] ∧
+    (exS9.σ 2).pendR = [0] ∧ (exS9.σ 1).outS = [(0, 1), (2, 1)] ∧ exS9.gh 0 1 = some ([0], [0]) := by decide
+
+/-- async_message_is_gathered: in `exS4` MPI can transfer the send of 0 to 2 -/
+example : (2, 0) ∈ (exS4.σ 0).outS ∧ (exS4.σ 2).inC = true ∧ 0 ∈ (exS4.σ 2).pendR := by decide
+/-- async_progress / async_measure: `exS9` is not final -/
+example : ∃ p, p < ex.sys.P ∧ (exS9.σ p).k < [true, true].length := ⟨0, by decide, by decide⟩
+
 end DV.C05
